@@ -229,7 +229,11 @@ def _c02():
             bounds="every sorted batch of n ops (puts/deletes in any mix, first key byte symbolic, other bytes zero, value hashes "
                    "symbolic) and every leaf key",
             functions=["nomt_core::update::leaf_ops_spliced"], assumes=[]) for n in ("n3_leaf", "n2_leaf", "n3_noleaf")]
-    return bt + vc + sp
+    sk = [K("c02::c02_bt_" + n, unwind=12, classes="func", timeout_s=1500, mem_gb=5, memsafe=False,
+            desc="build_trie(skip, ops) over ops sharing their first `skip` bits == spec root of the sub-trie at that depth [" + n + "]",
+            bounds=SHAPE_BOUNDS % 8 + "concrete shared prefix of 1 / 3 / 6 bits", functions=["nomt_core::update::build_trie"],
+            assumes=[ASSUME_SYMHASH]) for n in ("skip1_s2d0", "skip3_s2d1", "skip6_s1")]
+    return bt + vc + sp + sk
 
 
 RB_NAMES = [("s4a_absent_del_two_puts", "thorough"), ("s3a_absent_del_put", "thorough"), "s1_insert", "s1_overwrite", "s1_delete", "s1_delete_absent", "s2d0_split",
